@@ -26,7 +26,10 @@ type ClientTransport struct {
 
 	callbacks *transport.Callbacks
 	pollExit  chan any
-	once      sync.Once
+	// Closed when Run has returned: no poll is in flight anymore
+	// and every packet it received has been handed over.
+	runDone chan struct{}
+	once    sync.Once
 }
 
 func NewClientTransport(
@@ -43,6 +46,7 @@ func NewClientTransport(
 		httpClient:      httpClient,
 		callbacks:       callbacks,
 		pollExit:        make(chan any),
+		runDone:         make(chan struct{}),
 	}
 }
 
@@ -87,6 +91,8 @@ func (t *ClientTransport) Handshake() (hr *parser.HandshakeResponse, err error) 
 }
 
 func (t *ClientTransport) Run() {
+	defer close(t.runDone)
+
 	if t.initialPacket != nil {
 		t.callbacks.OnPacket(t.initialPacket)
 		// Set to nil for garbage collection.
@@ -208,6 +214,15 @@ func (t *ClientTransport) Send(packets ...*parser.Packet) {
 	if !rWeOk {
 		t.close(fmt.Errorf("polling: invalid response received"))
 		return
+	}
+}
+
+// WaitDrained blocks until the polling loop has stopped, i.e. the poll request that was in
+// flight when the transport was discarded has been answered and its packets were delivered.
+func (t *ClientTransport) WaitDrained(timeout time.Duration) {
+	select {
+	case <-t.runDone:
+	case <-time.After(timeout):
 	}
 }
 
